@@ -9,7 +9,7 @@ import numpy as np
 PROP = 'C01'
 LEVEL = 'exploration'
 DEPENDS = ['TidalPy/RadialSolver', 'TidalPy/utilities/dimensions', 'TidalPy/utilities/math', 'TidalPy/utilities/constants']
-MIN_DECISIVE = {'quick': 150, 'thorough': 4000}
+MIN_DECISIVE = {'quick': 100, 'thorough': 3000}
 CASE_TIMEOUT = 400
 NPROC = 16
 RULE = ('each case = one homogeneous sphere: log-uniform R 1e5..1e8 m, rho 500..1.5e4, |mu| 1e6..1e12 Pa with loss angle 0..60 deg, l 2..10, '
